@@ -1,5 +1,5 @@
 From Coq Require Import String List NArith.
-From JS Require Import Base.Wire Extract.RunOMap Extract.RunNum Extract.RunGuess Extract.RunJson.
+From JS Require Import Base.Wire Extract.RunOMap Extract.RunNum Extract.RunGuess Extract.RunJson Extract.RunRegex.
 Import ListNotations.
 
 (* one case line -> one result line; the first token names the model *)
@@ -11,6 +11,7 @@ Definition dispatch (line : bytes) : bytes :=
     else if beqb cmd B"num" then run_num args
     else if beqb cmd B"guess" then run_guess args
     else if beqb cmd B"json" then run_json args
+    else if beqb cmd B"regex" then run_regex args
     else bad_case
   | [] => bad_case
   end.
